@@ -109,10 +109,23 @@ def render(ids, crlf=False, style=None, junk=None):
             out.append(b'#' + sid.encode() + b': indent=4, length=1' +
                        extra + nl + b'\n')
             continue
+        elif name in ('preamble', 'diff') and st & 8 and st & 128:
+            # content that starts with empty lines
+            out.append(b'#' + sid.encode() +
+                       b': length=4, line_endings=unix' + extra + nl +
+                       b'\n\nx\n')
+            continue
         elif name in ('preamble', 'diff') and st & 8:
             out.append(b'#' + sid.encode() +
                        b': length=2, line_endings=unix' + extra + nl +
                        b'x\n')
+            continue
+        elif name in ('change', 'file') and st & 4 and st & 8:
+            # a length on a container is an option like any other (nothing
+            # is read for it)
+            out.append(b'#' + sid.encode() + b': length=' +
+                       [b'20', b'9', b'40', b'0'][(st >> 5) % 4] + extra
+                       + nl)
             continue
         elif name in ('change', 'file') and st & 4:
             out.append(b'#' + sid.encode() + b': encoding=latin-1' + extra
@@ -229,7 +242,9 @@ def sweep_tasks(tier, master):
     for sname, st in (('blank-line-before-every-header', 1),
                       ('type=binary-on-every-diff', 4 | 8),
                       ('options-on-containers', 4),
-                      ('copy/move-metadata', 16)):
+                      ('copy/move-metadata', 16),
+                      ('length-on-containers', 4 | 8),
+                      ('content-starting-with-empty-lines', 8 | 128)):
         for first in R.NEXT['diffx']:
             tasks.append({'name': 'sweep:prefix-tree', 'first': first,
                           'depth': depth - 1, 'exhaustive': True,
